@@ -16,7 +16,7 @@ def handleLine (line : String) : String :=
       let r : Except String Json :=
         if op.startsWith "tb." || op.startsWith "ind." || op.startsWith "py." ||
            op == "chunk" || op == "cond_chunk" || op.startsWith "comment." then TextOps.handle op j
-        else if ["parse", "c05", "c16", "sro", "find_fqn", "find_any", "find_single", "ids_t", "ids_notations"].contains op then
+        else if ["parse", "c05", "c05.skip", "c16", "sro", "find_fqn", "find_any", "find_single", "ids_t", "ids_notations"].contains op then
           ParseOps.handle op j
         else if op.startsWith "portsel." || op.startsWith "cpp." then GenOps.handle op j
         else if op == "build" || op.startsWith "build." then BuildOps.handle op j
